@@ -442,6 +442,16 @@ class TransmitterNext(Contract):
         return (mk_event_seq(c.I, "latent"), mk_event_seq(c.I, "nonlatent"))
 
 
+def _attach_next():
+    # the summary stays ASSUMED (the warm-up branch of the first step and the content of the lists are not verified); what is verified
+    # against the body is the steady-state contract: one grid point per call, in order, StopIteration iff exhausted
+    from .transmitter import TransmitterNextSteady
+    TransmitterNext.concrete = TransmitterNextSteady()
+
+
+_attach_next()
+
+
 @register
 class StateCall(Contract):
     """ASSUMED: building the observation raises nothing (its content and bounds are C18's subject)"""
